@@ -2,6 +2,7 @@ import Driver.Util
 import GFS.Base.Md5
 import GFS.Model.Front
 import GFS.Spec.S3
+import GFS.Spec.Listing
 /-
   stateful part of the driver: one model store and one specification store, driven by the
   same operation lines.
@@ -188,7 +189,20 @@ def stepState (st : DState) (toks : List String) : Option (DState × String × S
   | ["list", b, hasP, pfx, hasD, d, hasM, marker, maxKeys, v2] =>
     let (m, o) := Front.listBucket st.cfg st.mem (fromHex b) (parsePrefix hasP pfx hasD d) (hasM == "1") (fromHex marker)
       (parseInt maxKeys) (v2 == "1")
-    some ({ st with mem := m }, showOut o, "-")
+    -- the specification's unpaginated listing over the reference store's live keys after the marker
+    let sp := match SMap.find st.spec (fromHex b) with
+      | none => "err NoSuchBucket"
+      | some objs =>
+        let pr := parsePrefix hasP pfx hasD d
+        let live := objs.filter (fun q => (fromHex marker).isEmpty || Bytes.lt (fromHex marker) q.1)
+        let es := Spec.Listing.entries (if pr.hasPrefix then pr.pfx else []) (if pr.hasDelim then some pr.delim else none) (live.map (·.1))
+        let cs := (Spec.Listing.contents es).map fun k =>
+          match SMap.find objs k with
+          | some body => s!"{toHex k}:{body.length}:{toHex (Md5.md5 body)}"
+          | none => s!"{toHex k}:?:?"
+        let cl := if cs.isEmpty then "-" else ",".intercalate cs
+        s!"speclist C={cl} P={showKeys (Spec.Listing.prefixes es)}"
+    some ({ st with mem := m }, showOut o, sp)
   | ["listv", b, hasP, pfx, hasD, d, km, vm, maxKeys] =>
     let (m, o) := Front.listVersions st.cfg st.mem (fromHex b) (parsePrefix hasP pfx hasD d) (fromHex km) (parseOptNat vm)
       (parseInt maxKeys)
